@@ -92,9 +92,13 @@ type subPlan struct {
 	cannedCCA *cdt.AccountDebitResponse
 	gotSUR    *cdt.ServiceUsageRequest
 	gotCCR    *cdt.AccountDebitRequest
-	held      map[string][]*hold // by peer: answers read by the client and not yet dispatched
-	staleRuns int                // held answers dispatched while a later request was waiting
-	costDone  map[int]bool       // updates whose first tariff enquiry has been seen
+	// a second answer, given to every request after the first one (a client that asks again gets something else)
+	cannedSUA2 *cdt.ServiceUsageResponse
+	cannedCCA2 *cdt.AccountDebitResponse
+	nCanned    int
+	held       map[string][]*hold // by peer: answers read by the client and not yet dispatched
+	staleRuns  int                // held answers dispatched while a later request was waiting
+	costDone   map[int]bool       // updates whose first tariff enquiry has been seen
 	// unit groups: every request reports two rating groups; rating answers carry a tariff per rating group
 	// (7 resp. 3), the exchanges are recorded with their rating group, and the tariff enquiry that opens the
 	// SECOND group's part of an update follows the step's Cost action
@@ -267,9 +271,14 @@ func startPeers(rfPort, abmfPort int, pemF, keyF string) error {
 		if p.cannedSUA != nil {
 			p.mu.Lock()
 			p.gotSUR = &sur
+			p.nCanned++
+			ans := p.cannedSUA
+			if p.nCanned >= 2 && p.cannedSUA2 != nil {
+				ans = p.cannedSUA2
+			}
 			p.mu.Unlock()
 			a := m.Answer(diam.Success)
-			_ = a.Marshal(p.cannedSUA)
+			_ = a.Marshal(ans)
 			_, _ = a.WriteTo(c)
 			return
 		}
@@ -347,9 +356,14 @@ func startPeers(rfPort, abmfPort int, pemF, keyF string) error {
 		if p.cannedCCA != nil {
 			p.mu.Lock()
 			p.gotCCR = &ccr
+			p.nCanned++
+			ans := p.cannedCCA
+			if p.nCanned >= 2 && p.cannedCCA2 != nil {
+				ans = p.cannedCCA2
+			}
 			p.mu.Unlock()
 			a := m.Answer(diam.Success)
-			_ = a.Marshal(p.cannedCCA)
+			_ = a.Marshal(ans)
 			_, _ = a.WriteTo(c)
 			return
 		}
